@@ -1,19 +1,27 @@
 // C04, full read path over REAL stores: 1–3 store.NewTSDBStore over real tsdb.DB instances (temp
 // directories under os.TempDir(), removed when the op ends), each with its own external labels,
 // behind the real ProxyStore and query.NewQueryableCreator, with several replica labels that are
-// external labels of the stores, labels stored with the series, or neither.
+// external labels of the stores, labels stored with the series, or neither; series of 1–20 head
+// chunks that the store sends in one or many frames.
 //
-//	rp.tsdb <dedup> <wrl> <replicaLabels> <qmint> <qmaxt> <stores>
+//	rp.tsdb <dedup> <wrl> <replicaLabels> <qmint> <qmaxt> <stores> [<frame> <chunkRange>]
 //	   replicaLabels = name,name,… | -
 //	   stores = ST|ST|…    ST = <ext>#<ser>#<ser>…     ext = labels | -
-//	            ser = <labels>@<samples>               labels = k=v,k=v,… (sorted by name)
+//	            ser = <labels>@<chunk>+<chunk>+…       labels = k=v,k=v,… (sorted by name)
+//	            chunk = t:v,t:v,…
+//	   frame      = maxBytesPerFrame of every TSDBStore (0 = the default of 1 MiB): a frame is sent
+//	                as soon as its chunks exceed it, so 1 = one chunk per frame
+//	   chunkRange = block duration of the TSDBs = width of the windows at which the head cuts chunks
+//	                (default 7200000)
 //	   answer = S|S|…      S = <labels>@<samples>, ordered by the rendered label set; - = no series
 //
-// Domain (else "bad-op"): every series has a __name__ label and 1..29 samples with strictly
-// increasing timestamps >= 1, all samples of the op inside one hour that does not cross a
-// two-hour boundary (every series is ONE head chunk: below the head's 30-sample re-planning of
-// the chunk end, inside one chunk range, no out-of-bound appends); series and external label
-// names are disjoint; label names [a-z_]+, values [a-z0-9]+.
+// Domain (else "bad-op"): every series has a __name__ label; timestamps >= 1 and strictly
+// increasing along a series; the chunks of the op are exactly the head's chunks: all samples of a
+// chunk lie in one window [k*chunkRange, (k+1)*chunkRange), consecutive chunks in different
+// windows, at most 29 samples per chunk (below the head's 30-sample re-planning of the chunk end);
+// series and external label names are disjoint; label names [a-z_]+, values [a-z0-9]+.
+// The op is run only if the real TSDB cut the chunks as the op says (checked, class
+// "harness-chunk-cut" otherwise).
 package main
 
 import (
@@ -44,8 +52,9 @@ import (
 type tLbl struct{ k, v string }
 
 type tSeries struct {
-	ls []tLbl
-	s  []smp
+	ls     []tLbl
+	chunks [][]smp
+	s      []smp // all samples
 }
 
 type tStore struct {
@@ -110,11 +119,19 @@ func parseTStores(s string) ([]tStore, bool) {
 				return nil, false
 			}
 			ls, ok1 := parseLbls(q[0])
-			sm, ok2 := parseReplica(q[1])
-			if !ok1 || !ok2 {
+			if !ok1 {
 				return nil, false
 			}
-			st.series = append(st.series, tSeries{ls: ls, s: sm})
+			ser := tSeries{ls: ls}
+			for _, z := range strings.Split(q[1], "+") {
+				sm, ok2 := parseReplica(z)
+				if !ok2 || len(sm) == 0 {
+					return nil, false
+				}
+				ser.chunks = append(ser.chunks, sm)
+				ser.s = append(ser.s, sm...)
+			}
+			st.series = append(st.series, ser)
 		}
 		out = append(out, st)
 	}
@@ -126,7 +143,11 @@ func fmtTStores(sts []tStore) string {
 	for i, st := range sts {
 		q := []string{fmtLbls(st.ext)}
 		for _, s := range st.series {
-			q = append(q, fmtLbls(s.ls)+"@"+fmtReplica(s.s))
+			cs := make([]string, len(s.chunks))
+			for k, ch := range s.chunks {
+				cs[k] = fmtReplica(ch)
+			}
+			q = append(q, fmtLbls(s.ls)+"@"+strings.Join(cs, "+"))
 		}
 		p[i] = strings.Join(q, "#")
 	}
@@ -134,8 +155,10 @@ func fmtTStores(sts []tStore) string {
 }
 
 // tsdbDomain checks the restrictions listed in the file comment.
-func tsdbDomain(sts []tStore) bool {
-	lo, hi := int64(math.MaxInt64), int64(math.MinInt64)
+func tsdbDomain(sts []tStore, cr int64) bool {
+	if cr < 1 {
+		return false
+	}
 	for _, st := range sts {
 		extNames := map[string]bool{}
 		for _, l := range st.ext {
@@ -152,23 +175,21 @@ func tsdbDomain(sts []tStore) bool {
 					hasName = true
 				}
 			}
-			if !hasName || len(s.s) == 0 || len(s.s) > 29 || !strictlyIncreasing(s.s) || seen[fmtLbls(s.ls)] {
+			if !hasName || len(s.s) == 0 || s.s[0].t < 1 || !strictlyIncreasing(s.s) || seen[fmtLbls(s.ls)] {
 				return false
 			}
 			seen[fmtLbls(s.ls)] = true
-			if s.s[0].t < lo {
-				lo = s.s[0].t
-			}
-			if s.s[len(s.s)-1].t > hi {
-				hi = s.s[len(s.s)-1].t
+			prevWin := int64(-1)
+			for _, ch := range s.chunks {
+				w := ch[0].t / cr
+				if len(ch) > 29 || ch[len(ch)-1].t/cr != w || w == prevWin {
+					return false
+				}
+				prevWin = w
 			}
 		}
 	}
-	if lo > hi {
-		return true // no series at all
-	}
-	const twoH = int64(7200000)
-	return lo >= 1 && hi-lo < twoH/2 && lo/twoH == hi/twoH
+	return true
 }
 
 type tOut struct {
@@ -177,7 +198,7 @@ type tOut struct {
 }
 
 // runTSDB builds the stores and runs one Select through the real proxy and querier.
-func runTSDB(sts []tStore, dedupOn, wrl bool, rl []string, qmint, qmaxt int64) (out []tOut, status string) {
+func runTSDB(sts []tStore, dedupOn, wrl bool, rl []string, qmint, qmaxt int64, frame int, cr int64) (out []tOut, status string) {
 	root, err := os.MkdirTemp("", "verif-dedup-c04-")
 	if err != nil {
 		return nil, "err-tempdir"
@@ -199,36 +220,58 @@ func runTSDB(sts []tStore, dedupOn, wrl bool, rl []string, qmint, qmaxt int64) (
 		opts := tsdb.DefaultOptions()
 		opts.RetentionDuration = math.MaxInt64
 		opts.WALSegmentSize = -1 // no WAL: nothing is ever reopened
+		opts.MinBlockDuration, opts.MaxBlockDuration = cr, cr
 		db, err := tsdb.Open(fmt.Sprintf("%s/%d", root, i), nil, nil, opts, nil)
 		if err != nil {
 			return nil, "err-open"
 		}
 		dbs = append(dbs, db)
-		app := db.Appender(context.Background())
-		for _, s := range st.series {
+		db.DisableCompactions() // the head keeps every chunk as it was cut
+		// one appender, all samples of the store in time order (the head rejects samples older than
+		// half a chunk range before its newest one only for later appenders; within the first one
+		// the bound is the first sample)
+		type ent struct {
+			ser int
+			x   smp
+		}
+		var all []ent
+		lsets := make([]labels.Labels, len(st.series))
+		for k, s := range st.series {
 			var kv []string
 			for _, l := range s.ls {
 				kv = append(kv, l.k, l.v)
 			}
-			lset := labels.FromStrings(kv...)
-			var ref storage.SeriesRef
+			lsets[k] = labels.FromStrings(kv...)
 			for _, x := range s.s {
-				if ref, err = app.Append(ref, lset, x.t, float64(x.v)); err != nil {
-					return nil, "err-append"
-				}
+				all = append(all, ent{k, x})
+			}
+		}
+		sort.SliceStable(all, func(a, b int) bool { return all[a].x.t < all[b].x.t })
+		refs := make([]storage.SeriesRef, len(st.series))
+		app := db.Appender(context.Background())
+		for _, e := range all {
+			if refs[e.ser], err = app.Append(refs[e.ser], lsets[e.ser], e.x.t, float64(e.x.v)); err != nil {
+				return nil, "err-append"
 			}
 		}
 		if err := app.Commit(); err != nil {
 			return nil, "err-commit"
+		}
+		if !headCutAsGiven(db, st, lsets) {
+			return nil, "harness-chunk-cut"
 		}
 		var kv []string
 		for _, l := range st.ext {
 			kv = append(kv, l.k, l.v)
 		}
 		ext := labels.FromStrings(kv...)
+		ts := store.NewTSDBStore(nil, db, component.Receive, ext)
+		if frame > 0 {
+			store.VerifStoresSetMaxBytesPerFrame(ts, frame) // hook of the stores family (pkg/store/verif_stores.go)
+		}
 		cls = append(cls, &storetestutil.TestClient{
 			Name:        strconv.Itoa(i),
-			StoreClient: storepb.ServerAsClient(store.NewTSDBStore(nil, db, component.Receive, ext), atomic.Bool{}),
+			StoreClient: storepb.ServerAsClient(ts, atomic.Bool{}),
 			ExtLset:     []labels.Labels{ext},
 			MinTime:     math.MinInt64, MaxTime: math.MaxInt64,
 			WithoutReplicaLabelsEnabled: wrl,
@@ -261,6 +304,39 @@ func runTSDB(sts []tStore, dedupOn, wrl bool, rl []string, qmint, qmaxt int64) (
 		return nil, "err"
 	}
 	return out, "ok"
+}
+
+// headCutAsGiven reads the chunks back from the TSDB and compares their bounds with the op's chunks.
+func headCutAsGiven(db *tsdb.DB, st tStore, lsets []labels.Labels) bool {
+	q, err := db.ChunkQuerier(math.MinInt64, math.MaxInt64)
+	if err != nil {
+		return false
+	}
+	defer q.Close()
+	for k, s := range st.series {
+		var ms []*labels.Matcher
+		lsets[k].Range(func(l labels.Label) { ms = append(ms, labels.MustNewMatcher(labels.MatchEqual, l.Name, l.Value)) })
+		set := q.Select(context.Background(), true, nil, ms...)
+		n := 0
+		for set.Next() {
+			if set.At().Labels().Len() != lsets[k].Len() {
+				continue // a series with more labels
+			}
+			it := set.At().Iterator(nil)
+			for it.Next() {
+				m := it.At()
+				if n >= len(s.chunks) || m.MinTime != s.chunks[n][0].t || m.MaxTime != s.chunks[n][len(s.chunks[n])-1].t ||
+					m.Chunk.NumSamples() != len(s.chunks[n]) {
+					return false
+				}
+				n++
+			}
+		}
+		if n != len(s.chunks) {
+			return false
+		}
+	}
+	return true
 }
 
 func fmtTOut(out []tOut) string {
@@ -304,13 +380,22 @@ func inRangeSamples(s []smp, qmint, qmaxt int64) []smp {
 }
 
 func execC04TSDB(c *hlib.Ctx, tok []string) string {
-	if len(tok) != 7 {
+	if len(tok) != 7 && len(tok) != 9 {
 		return "bad-op"
+	}
+	frame, cr := 0, int64(7200000)
+	if len(tok) == 9 {
+		f, err1 := strconv.Atoi(tok[7])
+		r, err2 := strconv.ParseInt(tok[8], 10, 64)
+		if err1 != nil || err2 != nil || f < 0 {
+			return "bad-op"
+		}
+		frame, cr = f, r
 	}
 	qmint, err1 := strconv.ParseInt(tok[4], 10, 64)
 	qmaxt, err2 := strconv.ParseInt(tok[5], 10, 64)
 	sts, ok := parseTStores(tok[6])
-	if !ok || err1 != nil || err2 != nil || (tok[1] != "0" && tok[1] != "1") || (tok[2] != "0" && tok[2] != "1") || !tsdbDomain(sts) {
+	if !ok || err1 != nil || err2 != nil || (tok[1] != "0" && tok[1] != "1") || (tok[2] != "0" && tok[2] != "1") || !tsdbDomain(sts, cr) {
 		return "bad-op"
 	}
 	var rl []string
@@ -323,7 +408,7 @@ func execC04TSDB(c *hlib.Ctx, tok []string) string {
 		}
 	}
 	dedupOn, wrl := tok[1] == "1", tok[2] == "1"
-	out, status := runTSDB(sts, dedupOn, wrl, rl, qmint, qmaxt)
+	out, status := runTSDB(sts, dedupOn, wrl, rl, qmint, qmaxt, frame, cr)
 	if status != "ok" {
 		c.Violation(status, "Select over TSDB stores answers "+status)
 		return status
@@ -345,8 +430,14 @@ func oracleTSDB(c *hlib.Ctx, sts []tStore, out []tOut, dedupOn bool, rl []string
 	want := map[string]*group{}
 	for _, st := range sts {
 		for _, s := range st.series {
-			if s.s[len(s.s)-1].t < qmint || s.s[0].t > qmaxt {
-				continue // the store has no chunk of it in the range
+			inRange := false
+			for _, ch := range s.chunks {
+				if ch[len(ch)-1].t >= qmint && ch[0].t <= qmaxt {
+					inRange = true
+				}
+			}
+			if !inRange {
+				continue // the store has no chunk of it in the range: it sends nothing for the series
 			}
 			k := withoutLabels(fullLabels(st.ext, s.ls), rlSet)
 			if want[k] == nil {
@@ -452,23 +543,63 @@ func genC04TSDB(c *hlib.Ctx) {
 		}
 		c.Count("tsdb:replica-labels:" + strings.Join(ks, "+"))
 		c.Count(fmt.Sprintf("tsdb:replica-label-count:%d", len(rl)))
-		// logical series
-		base := int64(7200000) * r.I64Range(1, 200)
+		// logical series: one head chunk, or 2..20 head chunks cut at the windows of a small chunk range
+		multi := r.Chance(1, 2)
+		cr := int64(7200000)
+		frame := 0
+		if multi {
+			cr = []int64{60000, 600000}[r.Intn(2)]
+			frame = pickInt(r, 1, 64, 512, 0)
+			c.Count("tsdb:chunks:2..20-per-series")
+		} else {
+			frame = pickInt(r, 0, 0, 1, 64)
+			c.Count("tsdb:chunks:1-per-series")
+		}
+		c.Count(fmt.Sprintf("tsdb:frame-limit:%d", frame))
+		base := cr * r.I64Range(1, 200)
 		step := []int64{1000, 15000, 30000}[r.Intn(3)]
 		nlog := r.Range(1, 3)
 		type logical struct {
-			ls []tLbl
-			s  []smp
+			ls     []tLbl
+			chunks [][]smp
+			s      []smp
 		}
 		var logs []logical
 		for li := 0; li < nlog; li++ {
-			var s []smp
-			t := base + r.I64Range(1, step)
-			for k, m := 0, r.Range(1, 29); k < m; k++ {
-				s = append(s, smp{t, int64(li*1000 + k)})
-				t += step + r.I64Range(0, step/10)
+			l := logical{ls: []tLbl{{"__name__", "up"}, {"job", fmt.Sprintf("j%d", li)}}}
+			if !multi {
+				var s []smp
+				t := base + r.I64Range(1, step)
+				for k, m := 0, r.Range(1, 29); k < m; k++ {
+					s = append(s, smp{t, int64(li*1000 + k)})
+					t += step + r.I64Range(0, step/10)
+				}
+				l.chunks = [][]smp{s}
+			} else {
+				w := base/cr + r.I64Range(0, 3)
+				v := int64(li * 10000)
+				for k, m := 0, r.Range(2, 20); k < m; k++ {
+					cnt := r.Range(1, 8)
+					if r.Chance(1, 10) {
+						cnt = r.Range(20, 29)
+					}
+					stepc := cr / int64(cnt+1)
+					var ch []smp
+					for q := 0; q < cnt; q++ {
+						ch = append(ch, smp{w*cr + int64(q)*stepc + r.I64Range(0, stepc/2), v})
+						v++
+					}
+					l.chunks = append(l.chunks, ch)
+					w++
+					if r.Chance(1, 8) {
+						w += r.I64Range(1, 3) // a scrape gap
+					}
+				}
 			}
-			logs = append(logs, logical{ls: []tLbl{{"__name__", "up"}, {"job", fmt.Sprintf("j%d", li)}}, s: s})
+			for _, ch := range l.chunks {
+				l.s = append(l.s, ch...)
+			}
+			logs = append(logs, l)
 		}
 		region := []string{"eu", "us"}
 		var sts []tStore
@@ -489,13 +620,13 @@ func genC04TSDB(c *hlib.Ctx) {
 				}
 				switch r.Intn(4) {
 				case 0: // no replica label stored with the series
-					st.series = append(st.series, tSeries{ls: l.ls, s: l.s})
+					st.series = append(st.series, tSeries{ls: l.ls, chunks: l.chunks, s: l.s})
 				default:
 					name := serRep[pickInt(r, 0, 0, 0, 1)]
 					for _, v := range []string{"p1", "p2"}[:r.Range(1, 2)] {
 						ls := append(append([]tLbl(nil), l.ls...), tLbl{name, v})
 						sort.Slice(ls, func(a, b int) bool { return ls[a].k < ls[b].k })
-						st.series = append(st.series, tSeries{ls: ls, s: l.s})
+						st.series = append(st.series, tSeries{ls: ls, chunks: l.chunks, s: l.s})
 					}
 				}
 			}
@@ -503,7 +634,16 @@ func genC04TSDB(c *hlib.Ctx) {
 		}
 		dedupOn := !r.Chance(1, 4)
 		wrl := !r.Chance(1, 4)
-		qmint, qmaxt := base-10, base+3600000
+		lo, hi := int64(math.MaxInt64), int64(0)
+		for _, l := range logs {
+			if l.s[0].t < lo {
+				lo = l.s[0].t
+			}
+			if l.s[len(l.s)-1].t > hi {
+				hi = l.s[len(l.s)-1].t
+			}
+		}
+		qmint, qmaxt := lo-10, hi+10
 		if r.Chance(1, 3) {
 			s := logs[r.Intn(len(logs))].s
 			qmint = s[r.Intn(len(s))].t - r.I64Range(0, 1)
@@ -511,6 +651,9 @@ func genC04TSDB(c *hlib.Ctx) {
 			c.Count("tsdb:range:partial")
 		} else {
 			c.Count("tsdb:range:all")
+		}
+		if qmint < 1 {
+			qmint = 1
 		}
 		c.Count(fmt.Sprintf("tsdb:dedup:%v", dedupOn))
 		c.Count(fmt.Sprintf("tsdb:stores:%d", nstores))
@@ -529,7 +672,14 @@ func genC04TSDB(c *hlib.Ctx) {
 		for _, st := range sts {
 			ncopies += len(st.series)
 		}
-		out := c.Do(fmt.Sprintf("rp.tsdb %d %d %s %d %d %s", b2i(dedupOn), b2i(wrl), rls, qmint, qmaxt, fmtTStores(sts)), true)
+		line := fmt.Sprintf("rp.tsdb %d %d %s %d %d %s", b2i(dedupOn), b2i(wrl), rls, qmint, qmaxt, fmtTStores(sts))
+		if frame != 0 || cr != 7200000 {
+			line += fmt.Sprintf(" %d %d", frame, cr)
+		}
+		out := c.Do(line, true)
+		if multi && frame > 0 && frame <= 64 {
+			c.Count("tsdb:shape:series-spans-several-frames")
+		}
 		if out != "-" && dedupOn && strings.Count(out, "|")+1 < ncopies {
 			c.Count("tsdb:answer:copies-merged")
 		}
